@@ -378,7 +378,8 @@ def rule_collect_once(rep):
         t = unparse(o.node)
         r.check(
             "add_productions(list(self.productions))" in t
-            and re.search(r"for prod in self\.productions:\s+self\.nonterminals\[prod\.symbol\.fqn\] = prod\.symbol", t) is not None,
+            and (re.search(r"for prod in self\.productions:\s+self\.nonterminals\[prod\.symbol\.fqn\] = prod\.symbol", t) is not None
+                 or re.search(r"self\.nonterminals = \{(\w+)\.symbol\.fqn: \1\.symbol for \1 in self\.productions\}", t) is not None),
             "collection starts from the root file's productions, all registered first",
             "_add_resolve_all_production_symbols:start",
             "collection no longer starts from the registered productions of the root file",
